@@ -612,6 +612,52 @@ static void fam_copy(void)
 			mc_restart_worker();
 		}
 	}
+	/* the documented public idiom for retained text: json_object_userdata_to_json_string + json_object_free_userdata */
+	for (int variant = 0; variant < 2; variant++)
+	{
+		TXL = (size_t)snprintf((char *)TXT, 64, "public userdata serializer variant %d", variant);
+		if (!mc_case_begin())
+			continue;
+		long live0 = vf_live();
+		struct json_object *d = json_object_new_double(1.5);
+		json_object_set_serializer(d, json_object_userdata_to_json_string, vf_strdup("1.50"), json_object_free_userdata);
+		struct json_object *o = d;
+		if (variant)
+		{
+			o = json_object_new_object();
+			json_object_object_add(o, "price", d);
+		}
+		const char *want = variant ? "{\"price\":1.50}" : "1.50";
+		struct json_object *c = NULL;
+		MC_COUNT("calls", 1);
+		if (json_object_deep_copy(o, &c, NULL) != 0 || !c)
+			mc_violation("copy-failed", "deep copy of a node using the public userdata serializer failed");
+		else
+		{
+			if (strcmp(json_object_to_json_string_ext(c, JSON_C_TO_STRING_PLAIN), want))
+				mc_violation("copy-serializes-differently", "the copy serializes as %s, expected %s", json_object_to_json_string_ext(c, JSON_C_TO_STRING_PLAIN), want);
+			/* the source's retained text is the source's: editing it in place must not show in the copy */
+			char *txt = json_object_get_userdata(d);
+			txt[0] = '7';
+			if (strcmp(json_object_to_json_string_ext(c, JSON_C_TO_STRING_PLAIN), want))
+				mc_violation("mutating-source-changes-copy", "after editing the source's retained text the copy serializes as %s", json_object_to_json_string_ext(c, JSON_C_TO_STRING_PLAIN));
+			json_object_put(o);
+			o = NULL;
+			void *junk = vf_malloc(5);
+			memset(junk, 'J', 5);
+			if (strcmp(json_object_to_json_string_ext(c, JSON_C_TO_STRING_PLAIN), want))
+				mc_violation("destroying-source-changes-copy", "after destroying the source the copy serializes as %s", json_object_to_json_string_ext(c, JSON_C_TO_STRING_PLAIN));
+			vf_free(junk);
+			json_object_put(c);
+		}
+		if (o)
+			json_object_put(o);
+		if (vf_live() != live0)
+		{
+			mc_violation("leak", "%ld blocks leaked", vf_live() - live0);
+			mc_restart_worker();
+		}
+	}
 	/* argument errors */
 	if (mc_case_begin())
 	{
